@@ -52,7 +52,7 @@ def main():
         if a.returncode != 0:
             print("patch does not apply:", a.stderr[:500])
             return 2
-        if (d / "demo.py").exists():
+        if (d / "demo.py").exists() and not os.environ.get("RUN_SEEDED_NO_DEMO"):
             w = sh(f"PYTHONPATH={scratch}/src PYTHONHASHSEED=0 timeout 600 {PY} -W ignore {d}/demo.py")
             wo = sh(f"PYTHONPATH=/repo/src PYTHONHASHSEED=0 timeout 600 {PY} -W ignore {d}/demo.py")
             out["demo_with_change"] = {"rc": w.returncode, "tail": (w.stdout + w.stderr)[-300:]}
